@@ -56,6 +56,7 @@ def run(ctx):
     rng = ctx.rng
     cmds = []
     cases = []
+    rawcases = []
     for mode, name, d, key in msggen.all_defs():
         if (mode, name) in PAYLOAD_ONLY or (mode, name) in C16_BAD:
             continue
@@ -85,9 +86,38 @@ def run(ctx):
                 if sub and sub != kw:
                     cases.append((mode, name, d, key, p, sub, lt, "subset"))
                     cmds.append(sweep.build_cmd(key, mode, True, sub))
+                # the raw-bitfield view: parsed with parsebitfield=False, every bitfield is one bytes-valued attribute
+                # (whose name may itself end in _<digit>), fed back with parsebitfield=False
+                if msggen.has_bitfield(d):
+                    try:
+                        with impl.quiet():
+                            m0 = UBXReader.parse(f, msgmode=mode, parsebitfield=False)
+                    except Exception:  # pylint: disable=broad-except
+                        m0 = None
+                    if m0 is not None:
+                        kw0 = {k: v for k, v in m0.__dict__.items() if not k.startswith("_")}
+                        if kw0:
+                            rawcases.append((mode, name, key, p, kw0))
+                            cmds.append(sweep.build_cmd(key, mode, False, kw0))
     ctx.correspond(cmds, canon=lambda c, l: impl.canon_model_line(l), nontrivial=lambda c, o: o.startswith("OK"), label="BUILD")
     ctx.disagreements = [d for d in ctx.disagreements if d["model"] != "RAISE Other"]
     # ---- search on the implementation ----
+    for mode, name, key, p, kw0 in rawcases:
+        inp = {"op": "REBUILD-RAW-BITFIELDS", "mode": mode, "name": name, "payload": p[:120].hex(), "kw": common.srepr(kw0, 300)}
+        try:
+            with impl.quiet():
+                m = UBXMessage(key[0:1], key[1:2], mode, parsebitfield=False, **kw0)
+        except ube.UBXMessageError:
+            continue
+        except Exception as e:  # pylint: disable=broad-except
+            ctx.fail("parsed-values-refused", inp, "construction succeeds", "%s: %s" % (type(e).__name__, str(e)[:100]))
+            ctx.failures[-1]["ctx"] = (mode, name, kw0, None)
+            continue
+        ctx.evaluations += 1
+        if (m.payload or b"") != p and not scaled_only_diff(m, p, mode, key):
+            diff = [i for i in range(min(len(p), len(m.payload or b""))) if p[i] != (m.payload or b"")[i]][:4]
+            ctx.fail("rebuilt-payload-differs", dict(inp, first_diff_offsets=diff), p[:60].hex(), (m.payload or b"")[:60].hex())
+            ctx.failures[-1]["ctx"] = (mode, name, kw0, "payload")
     for mode, name, d, key, p, kw, lt, kind in cases:
         inp = {"op": "REBUILD", "mode": mode, "name": name, "kind": kind, "payload": p[:120].hex(), "kw": common.srepr(kw, 300)}
         try:
@@ -129,6 +159,22 @@ def run(ctx):
             omitted = [k for k in battrs if k not in kw and not is_nominal(battrs[k])]
             if omitted:
                 ctx.fail("omitted-attribute-not-nominal", dict(inp, attribute=omitted[0]), "zero/blank", common.srepr(battrs[omitted[0]], 60))
+
+
+def scaled_only_diff(m, p, mode, key):
+    """Do the rebuilt and the original payload parse (raw-bitfield view) to the same attributes?  (A scaled field may come
+    back one unit off: the recorded finding of this property, reported by the default-view search.)"""
+    try:
+        with impl.quiet():
+            a = UBXReader.parse(msggen.frame(key, p), msgmode=mode, parsebitfield=False)
+            b = UBXReader.parse(m.serialize(), msgmode=mode, parsebitfield=False)
+    except Exception:  # pylint: disable=broad-except
+        return False
+    da = {k: v for k, v in a.__dict__.items() if not k.startswith("_")}
+    db = {k: v for k, v in b.__dict__.items() if not k.startswith("_")}
+    if list(da) != list(db):
+        return False
+    return all(same(da[k], db[k]) or isinstance(da[k], float) for k in da)
 
 
 def needed_counts(d):
